@@ -4,7 +4,7 @@ import ast
 from . import pyx
 from .core import AnalysisError, src, dotted
 from . import logic
-from .pysym import SymExec, show, subterms, is_method_call, path_values, alternatives, all_calls
+from .pysym import SymExec, show, subterms, is_method_call, path_values, alternatives, all_calls, terms_of
 
 REL = pyx.REL
 MUTATORS = {'append', 'extend', 'insert', 'pop', 'remove', 'clear', 'sort', 'reverse', 'update',
@@ -67,6 +67,34 @@ class RetrieveTree(object):
         self.Tree = self.tree_mod.get('Tree')
         self.paths = []
         kw = N(self.p_kw)
+        # the user-data record's keys, by what is done with them (names are the refactorer's business)
+        self.keys = {'stack': 'stack', 'scores': 'scores', 'categories': 'categories', 'tokens': 'tokens'}
+        found = {}
+
+        def key_of(t):
+            return t[2][1] if t[0] == 'sub' and t[1] == kw and t[2][0] == 'const' and isinstance(t[2][1], str) else None
+
+        def probe_call(st, t, node):
+            if t[1] == N(self.fn.name):
+                return ('sym', 'cat-id')
+            if is_method_call(t, 'append') and key_of(t[1][1]) and t[2]:
+                a = t[2][0]
+                if a[0] == 'call' and a[1][0] == 'attr' and a[1][1] == N('Tree'):
+                    found.setdefault('stack', set()).add(key_of(t[1][1]))
+                elif any(c == A(N(self.p_item), 'fin') and pol for c, pol, _ in st.conds):
+                    found.setdefault('scores', set()).add(key_of(t[1][1]))
+            return None
+        for st, out in SymExec(self.fn, on_call=probe_call, init_env={}).run():
+            for t in (x for t0 in terms_of(st) for x in subterms(t0)):
+                if t[0] == 'sub' and key_of(t[1]):
+                    if t[2] == A(N(self.p_item), 'cat'):
+                        found.setdefault('categories', set()).add(key_of(t[1]))
+                    elif t[2] == S(N(self.p_tok), C(0)):
+                        found.setdefault('tokens', set()).add(key_of(t[1]))
+        for role, ks in found.items():
+            if len(ks) == 1:
+                self.keys[role] = next(iter(ks))
+        k_stack = S(kw, C(self.keys['stack']))
 
         def on_call(st, t, node):
             stack = st.data.setdefault('stack', [])
@@ -77,19 +105,16 @@ class RetrieveTree(object):
                 stack.append(('sym', 'subtree', tag))
                 st.data.setdefault('order', []).append(tag)
                 return ('sym', 'cat-id-of', tag)
-            if is_method_call(t, 'append') and f[1] == S(kw, C('stack')):
+            if is_method_call(t, 'append') and f[1] == k_stack:
                 stack.append(t[2][0])
                 return None
-            if is_method_call(t, 'pop') and f[1] == S(kw, C('stack')) and not t[2]:
+            if is_method_call(t, 'pop') and f[1] == k_stack and not t[2]:
                 if not stack:
                     return ('sym', 'underflow')
                 return stack.pop()
             return None
 
-        def on_stmt(st, s):
-            pass
         ex = SymExec(self.fn, on_call=on_call, init_env={})
-        # mark fin path: evaluate `item.fin` branch by data flag
         for st, out in ex.run():
             self.paths.append((st, out))
 
@@ -135,19 +160,20 @@ def r_retrieve_tree(repo, rep, R, what):
         rep.violation(R, w(node) if node is not None else w(rt.fn), 'retrieve_tree:extra-path',
                       'retrieve_tree has a path that is none of goal / leaf / unary / binary reconstruction: it leaves %s on the result stack and returns %s '
                       '(a node not rebuilt from this very item, its children and its rule)' % ([show(x)[:40] for x in pushed], show(st.ret)[:40] if st.ret else None))
-    cat_t = S(S(kw, C('categories')), A(item, 'cat'))
+    K = rt.keys
+    cat_t = S(S(kw, C(K['categories'])), A(item, 'cat'))
     fin_st = kinds['fin'][0][0]
     rec = ('call', N(rt.fn.name), (A(item, 'left'), tok, cache, kw), ())
     if 'score' in what:
-        want = ('call', A(S(kw, C('scores')), 'append'), (('call', A(item, 'score'), (), ()),), ())
+        want = ('call', A(S(kw, C(K['scores'])), 'append'), (('call', A(item, 'score'), (), ()),), ())
         calls = [e[1] for e in fin_st.events if e[0] == 'call']
-        n_sc = [c for c in calls if is_method_call(c, 'append') and c[1][1] == S(kw, C('scores'))]
-        want2 = ('call', A(S(kw, C('scores')), 'append'), (A(item, 'in_score'),), ())   # equal: goal out_score is 0
+        n_sc = [c for c in calls if is_method_call(c, 'append') and c[1][1] == S(kw, C(K['scores']))]
+        want2 = ('call', A(S(kw, C(K['scores'])), 'append'), (A(item, 'in_score'),), ())   # equal: goal out_score is 0
         rep.check(len(n_sc) == 1 and n_sc[0] in (want, want2), R, w(rt.fn), 'retrieve_tree:fin:score',
                   'the goal item reports item.score() exactly once (%s)' % show(want),
                   'goal item path records %s' % [show(c) for c in n_sc])
         others = [k for k in ('leaf', 'unary', 'binary')
-                  if any(is_method_call(e[1], 'append') and e[1][1][1] == S(kw, C('scores'))
+                  if any(is_method_call(e[1], 'append') and e[1][1][1] == S(kw, C(K['scores']))
                          for e in kinds[k][0][0].events if e[0] == 'call')]
         rep.check(not others, R, w(rt.fn), 'retrieve_tree:score-once', 'no score is recorded for inner nodes',
                   'scores are also appended on paths %s' % others)
@@ -161,7 +187,7 @@ def r_retrieve_tree(repo, rep, R, what):
         tokidx = S(tok, C(0))
         mk = [e[1] for e in st.events if e[0] == 'call' and e[1][1] == A(N('Tree'), 'make_terminal')][0]
         b = bind_args(mk, rt.tree_mod.get('Tree.make_terminal'))
-        rep.check(b['word'] == S(S(kw, C('tokens')), tokidx), R, w(rt.fn), 'retrieve_tree:leaf:token',
+        rep.check(b['word'] == S(S(kw, C(K['tokens'])), tokidx), R, w(rt.fn), 'retrieve_tree:leaf:token',
                   'a leaf takes the token at the running token counter (%s)' % show(b['word']),
                   'leaf token is %s' % show(b['word']))
         rep.check(b['cat'] == cat_t, R, w(rt.fn), 'retrieve_tree:leaf:cat',
@@ -435,6 +461,7 @@ def r_sentence_loop(repo, rep, R, table_info):
     if table_info:
         _TABLE[0] = table_info['table']
         _ADDER[0] = table_info['adder']
+    K = RetrieveTree(repo).keys
     loops = [s for s in run.body if isinstance(s, ast.For)]
     sent = [l for l in loops if any(isinstance(n, ast.Call) and src(n.func) == 'parse_sentence' for n in ast.walk(l))]
     if len(sent) != 1:
@@ -499,7 +526,7 @@ def r_sentence_loop(repo, rep, R, table_info):
                 detail = show(v)
                 if len(fa) == 1:
                     d = {k[1]: val for k, val in fa[0][1] if k and k[0] == 'const'}
-                    stk, scs = d.get('stack'), d.get('scores')
+                    stk, scs = d.get(K['stack']), d.get(K['scores'])
                     if stk and scs and stk[0] == 'alloc' and scs[0] == 'alloc' and stk != scs:
                         loopline = loop.lineno
                         fresh_per_sentence = fresh_per_sentence and stk[2] > loopline and scs[2] > loopline
@@ -517,10 +544,11 @@ def r_sentence_loop(repo, rep, R, table_info):
                                        and sc[0] == 'unpack' and sc[2] == 1 and tr[1][0] == 'elem' and tr[1][1] == zi)
                             else:
                                 okz = False
-                    rep.check(d.get('tokens') is not None and d['tokens'][0] == 'unpack' and d['tokens'][2] == 0
-                              and d.get('categories') in (N(_TABLE[0]), st.env.get(_TABLE[0])), R, w(loop), 'run:loop:finalizer-args',
+                    d_tok, d_cat = d.get(K['tokens']), d.get(K['categories'])
+                    rep.check(d_tok is not None and d_tok[0] == 'unpack' and d_tok[2] == 0
+                              and d_cat is not None and d_cat in (N(_TABLE[0]), st.env.get(_TABLE[0])), R, w(loop), 'run:loop:finalizer-args',
                               'the finalizer gets this sentence\'s tokens and the shared category table',
-                              'finalizer args are tokens=%s categories=%s' % (show(d.get('tokens', C(None))), show(d.get('categories', C(None)))))
+                              'finalizer args are tokens=%s categories=%s' % (show(d_tok or C(None)), show(d_cat or C(None))))
                 rep.check(okz, R, w(loop), 'run:loop:zip', 'trees and scores of a sentence are paired positionally from buffers created for that sentence (%s)' % detail,
                           'the result of a parsed sentence is %s' % detail)
     rep.check(counts and all(c == 1 for c in counts), R, w(loop), 'run:loop:one-result',
@@ -679,6 +707,48 @@ def r_call_locals(repo, rep, R):
         raise AnalysisError('%s: no path of run() calls parse_sentence' % REL)
     globs = [n for n in ast.walk(run) if isinstance(n, (ast.Global, ast.Nonlocal))]
     rep.check(not globs, R, w, 'run:no-global', 'run() declares no global state', 'run() writes module state: global %s' % [g.names for g in globs])
+
+
+def r_score_buffers(repo, rep, R):
+    """the two score matrices are handed to the C++ search as raw pointers and read there densely, row after row: the
+    Python-side buffers must be declared 2-d, float and C-contiguous (Cython then rejects anything else up front)."""
+    mod, run = _run_fn(repo)
+    calls = [n for n in ast.walk(run) if isinstance(n, ast.Call) and src(n.func) == 'parse_sentence']
+    if not calls:
+        raise AnalysisError('%s: run() does not call parse_sentence' % REL)
+    decls = {}
+    assigns = {}
+    for n in ast.walk(run):
+        if isinstance(n, ast.Assign):
+            is_decl = isinstance(n.value, ast.Call) and src(n.value.func) == '__cdecl__'
+            for t in n.targets:
+                for x in ast.walk(t):
+                    if isinstance(x, ast.Name) and isinstance(x.ctx, ast.Store):
+                        if is_decl:
+                            decls[x.id] = n.value.args[0].value
+                        elif t is x:
+                            assigns.setdefault(x.id, []).append(n.value)
+    for call in calls:
+        for idx, what in ((0, 'tag'), (1, 'dependency')):
+            e = call.args[idx]
+            hops = 0
+            while isinstance(e, ast.Name) and len(assigns.get(e.id, [])) == 1 and hops < 4:
+                e = assigns[e.id][0]
+                hops += 1
+            w = '%s:%s run' % (REL, call.lineno)
+            key = 'run:buffer:%s' % what
+            if isinstance(e, ast.Attribute) and e.attr == 'data' and isinstance(e.value, ast.Name):
+                ty = decls.get(e.value.id, '').replace(' ', '').replace('"', "'")
+                producers = [src(v.func) for v in assigns.get(e.value.id, []) if isinstance(v, ast.Call)]
+                contiguous = "mode='c'" in ty.lower() or any(p_.split('.')[-1] in ('ascontiguousarray',) for p_ in producers)
+                ok = contiguous and (not ty or ('ndim=2' in ty and ty.startswith(('np.ndarray[float,', 'np.ndarray[np.float32_t,', 'numpy.ndarray[float,'))))
+                rep.check(ok, R, w, key, 'the %s score matrix whose .data pointer goes to the search is declared %s' % (what, ty or producers),
+                          'the %s score matrix is handed to the search as a raw pointer but its buffer is declared %r: a non-contiguous or '
+                          'differently typed array would be read with the wrong layout' % (what, ty or 'without a type'))
+            elif isinstance(e, ast.Subscript) and isinstance(e.value, ast.Name) and decls.get(e.value.id, '').replace(' ', '').endswith(',::1]'):
+                rep.check(True, R, w, key, 'the %s score matrix is a C-contiguous typed memoryview (%s)' % (what, decls[e.value.id]), '')
+            else:
+                raise AnalysisError('%s: cannot tell how the %s score pointer %s is obtained' % (REL, what, src(call.args[idx])))
 
 
 def r_root_ids(repo, rep, R, table_info):
